@@ -54,6 +54,11 @@ SPECIES = {
 
 def conf(n, k, seed):
     """conformation number k of a species with n atoms: generic coordinates with exactly three decimals"""
+    if k % 7 == 6 and k >= 1:
+        # a near repeat of the conformation before it: shifted and bent by about a millionth of a nanometre (two
+        # consecutive frames of a slow motion) - another conformation, with its own image
+        base = conf(n, k - 1, seed)
+        return base + np.random.default_rng(seed * 7 + k).normal(size=base.shape) * 1e-6
     rng = np.random.default_rng(seed * 100003 + 1000 * k + n)
     a = rng.normal(size=(n, 3)) * 0.6 + rng.normal(size=3) * (2.0 if k % 3 else 20.0)
     if k % 5 == 4 and n >= 3:
@@ -101,7 +106,9 @@ class World:
         names = ['%s%d' % ('C' if which == 'ref' else 'N', i + 1) for i in range(n)]
         residues = [('%s%d' % ('RR' if which == 'ref' else 'TT', 0 if sp.get('same') else r), r) for r in res]
         pos = conf(n, k, self.seed) if which == 'ref' else conf_target(sp, k, self.seed)
-        return synth.make_molecule(os.path.join(self.workdir, '%s%d_%s' % (which, self.n, tag)), nm, names, bonds, pos, residues=residues)
+        mol = synth.make_molecule(os.path.join(self.workdir, '%s%d_%s' % (which, self.n, tag)), nm, names, bonds, pos, residues=residues)
+        mol.atoms_positions = pos            # exactly (the file carries three decimals)
+        return mol
 
     def nres(self, which):
         return len(set(self.sp['rres' if which == 'ref' else 'tres']))
